@@ -439,7 +439,13 @@ func rwGenEmit(t *rapid.T, ns, nt int) rwOp {
 	o := rwOp{K: "emit", I: rapid.IntRange(0, ns-1).Draw(t, "src")}
 	k := rapid.SampledFrom([]int{0, 0, 1, 1, 2, 3, 4}).Draw(t, "ntasks")
 	for i := 0; i < k; i++ {
-		o.Tasks = append(o.Tasks, rwTaskSpec{Target: rapid.IntRange(0, nt-1).Draw(t, "tt"), Variant: rapid.IntRange(0, 2).Draw(t, "tv")})
+		ts := rwTaskSpec{Target: rapid.IntRange(0, nt-1).Draw(t, "tt"), Variant: rapid.IntRange(0, 2).Draw(t, "tv"), Alt: rapid.IntRange(0, 4).Draw(t, "alt") == 0}
+		if i > 0 && rapid.IntRange(0, 3).Draw(t, "twin") == 0 {
+			// the same workflow id in the other namespace, right after its twin
+			ts = o.Tasks[i-1]
+			ts.Alt = !ts.Alt
+		}
+		o.Tasks = append(o.Tasks, ts)
 	}
 	o.HighGap = rapid.IntRange(0, 2).Draw(t, "hg")
 	o.IDGap = rapid.IntRange(0, 2).Draw(t, "ig")
@@ -489,6 +495,29 @@ func rwGenCase(t *rapid.T, faults bool) rwCase {
 		if faults && rapid.IntRange(0, 24).Draw(t, "fault") == 0 {
 			c.Ops = append(c.Ops, rwGenFault(t, c))
 		}
+	}
+	if !faults && rapid.IntRange(0, 29).Draw(t, "bigBurst") == 0 {
+		// rare: more than 1024 unconfirmed tasks outstanding on one target stream after earlier acks (the proxy-id table
+		// grows while wrapped), then the target confirms in steps
+		src, tg := rapid.IntRange(0, c.NS-1).Draw(t, "bbSrc"), rapid.IntRange(0, c.NT-1).Draw(t, "bbTgt")
+		pos := rapid.IntRange(0, len(c.Ops)).Draw(t, "bbPos")
+		var burst []rwOp
+		burst = append(burst, rwOp{K: "connect", Side: "T", I: tg})
+		for k := 0; k < 3; k++ {
+			burst = append(burst, rwOp{K: "emit", I: src, Tasks: []rwTaskSpec{{Target: tg}, {Target: tg, Variant: 1}}}, rwOp{K: "finish", I: tg, N: 2}, rwOp{K: "ack", I: tg})
+		}
+		n := rapid.IntRange(130, 140).Draw(t, "bbN")
+		for k := 0; k < n; k++ {
+			var ts []rwTaskSpec
+			for x := 0; x < 8; x++ {
+				ts = append(ts, rwTaskSpec{Target: tg, Variant: x % 3})
+			}
+			burst = append(burst, rwOp{K: "emit", I: src, Tasks: ts})
+		}
+		for k := 0; k < 6; k++ {
+			burst = append(burst, rwOp{K: "finish", I: tg, N: rapid.IntRange(1, 400).Draw(t, "bbFin")}, rwOp{K: "ack", I: tg})
+		}
+		c.Ops = append(append(append([]rwOp{}, c.Ops[:pos]...), burst...), c.Ops[pos:]...)
 	}
 	return c
 }
@@ -668,12 +697,19 @@ func TestVF_C03_Rapid(t *testing.T) {
 		if rapid.IntRange(0, 3).Draw(rt, "burst") == 0 {
 			j := rapid.IntRange(0, c.NT-1).Draw(rt, "burstT")
 			pos := rapid.IntRange(0, len(c.Ops)).Draw(rt, "burstPos")
+			atEnd := rapid.Bool().Draw(rt, "burstAtEnd")
+			if atEnd {
+				pos = len(c.Ops) // the source goes idle right after the burst: only its periodic re-sends follow
+			}
 			var burst []rwOp
-			burst = append(burst, rwOp{K: "stall", Side: "T", I: j})
+			// the target holds a task of this source (so it takes part in the aggregate), then stops reading
+			burst = append(burst, rwOp{K: "connect", Side: "T", I: j}, rwOp{K: "emit", I: 0, Tasks: []rwTaskSpec{{Target: j}}}, rwOp{K: "stall", Side: "T", I: j})
 			for k := 0; k < 105; k++ {
 				burst = append(burst, rwOp{K: "emit", I: 0, HighGap: 1})
 			}
-			burst = append(burst, rwOp{K: "unstall", Side: "T", I: j})
+			if !atEnd {
+				burst = append(burst, rwOp{K: "unstall", Side: "T", I: j})
+			}
 			c.Ops = append(append(append([]rwOp{}, c.Ops[:pos]...), burst...), c.Ops[pos:]...)
 		}
 		run(rt, c)
